@@ -1,0 +1,42 @@
+// Licensed to Apache Software Foundation (ASF) under one or more contributor
+// license agreements. See the NOTICE file distributed with
+// this work for additional information regarding copyright
+// ownership. Apache Software Foundation (ASF) licenses this file to you under
+// the Apache License, Version 2.0 (the "License"); you may
+// not use this file except in compliance with the License.
+// You may obtain a copy of the License at
+//
+//     http://www.apache.org/licenses/LICENSE-2.0
+//
+// Unless required by applicable law or agreed to in writing,
+// software distributed under the License is distributed on an
+// "AS IS" BASIS, WITHOUT WARRANTIES OR CONDITIONS OF ANY
+// KIND, either express or implied.  See the License for the
+// specific language governing permissions and limitations
+// under the License.
+
+//go:build verif
+
+// Contracts for the trace plan nodes (comment-only; read by /verif/govc).
+
+package trace
+
+//@ section C09
+//
+// offset/limit over trace results: the k-th result delivered is input result offset+k; with limit > 0 at most limit
+// results are delivered (limit == 0 means unlimited); nothing inside the window is skipped.
+//@ func traceLimitIterator.Next
+//@   mode int
+//@   requires tli != nil && tli.sourceIterator != nil && 0 <= tli.offset && 0 <= tli.limit
+//@   requires sync: tli.currentIndex == tli.sourceIterator.pos && tli.returned == max(0, tli.currentIndex - tli.offset)
+//@   requires reachable: tli.currentIndex < 4611686018427387904
+//@   modifies tli.currentIndex
+//@   modifies tli.returned
+//@   modifies tli.sourceIterator.pos
+//@   modifies tli.sourceIterator.done
+//@   ensures  window: result1 ==> tli.sourceIterator.pos == max(old(tli.sourceIterator.pos), tli.offset) + 1 && (tli.limit > 0 ==> tli.sourceIterator.pos <= tli.offset + tli.limit)
+//@   ensures  resync: result1 ==> tli.currentIndex == tli.sourceIterator.pos && tli.returned == tli.currentIndex - tli.offset
+//@   ensures  stop: !result1 && result0.Error == nil ==> tli.sourceIterator.done || (tli.limit > 0 && tli.sourceIterator.pos >= tli.offset + tli.limit)
+//@   loop 0 invariant tli.currentIndex == tli.sourceIterator.pos && old(tli.currentIndex) <= tli.currentIndex && tli.returned == old(tli.returned)
+//@   loop 0 invariant tli.currentIndex <= max(old(tli.currentIndex), tli.offset)
+//@   loop 0 invariant !(tli.limit > 0 && tli.returned >= tli.limit)
